@@ -14,7 +14,8 @@ denotation of declarations under permutation of key-distinct definitions.
 What is NOT proved (observed by `harness/src/bin/c17.rs`, stream O): that fresh processes (different `RandomState`
 seeds) write byte-identical files / diagnostics, and that the library entry points produce the CLI's bytes.
 That the CONCRETE checker / printer models (not just the abstract shape `diagnostics` / `declOf` used here) are
-invariant under permutation of definitions is proved in `Props/C17Concrete.lean`.
+invariant under permutation of definitions is proved in `Props/C17Concrete.lean`; the server schema file under
+permutation is in `Props/C17Server.lean`. The OPEN block at the end of this file covers all three modules.
 -/
 namespace NitroVerif.Determinism
 open NitroVerif.Gql
@@ -328,13 +329,27 @@ OPEN — carried by K/O only (observed by harness/src/bin/c17.rs, not proved):
 
 * `∀ project P, ∀ runs r₁ r₂ in fresh processes: out(r₁) = out(r₂)` bytewise (declarations, source maps, server
   schema, `--output-format json` stdout, diagnostics of `check`): the theorems above show that the modelled results
-  at the hash-iteration sites do not depend on the iteration order; that the process has no OTHER source of
-  nondeterminism (allocator addresses, time, environment, third-party crates) is observed on N fresh processes.
+  at the SCANNED hash-iteration sites do not depend on the iteration order (the per-process `RandomState` seed is
+  modelled as "any permutation"); that the process has no OTHER source of nondeterminism (hash iteration the scanner
+  cannot see, allocator addresses, time, environment, third-party crates) is observed on N fresh processes.
+* the per-site models: only `bag` / `localTypeNames` (K `identifiers`, `localnames`) and `requiredFiles` (K
+  `required-files`) are compared with the code; `mapStr`, `fromConfig`, `loadSchemaExtensions`, `schemaAddition` are
+  transcriptions by reading with abstract parameters (key / value functions, extension parser, sort comparator assumed a
+  total order); `NoDupKeys` of the iteration sequence is the std-HashMap fact "every key once" (trusted).
+* what a permutation is: a permutation of the LIST of definitions, each carrying its recorded positions. Files are not
+  modelled, nor the new positions a definition gets when source text is moved (observed: streams `perm`, `targeted`,
+  `multi-def`, `dup-names` of harness/src/bin/c17.rs).
 * (moved to theorems, wave 3 — `Props/C17Concrete.lean`) that the checker / printers are of the shape `diagnostics chk
   view defs` / `decls` is no longer "by reading": permutation invariance is proved of the CONCRETE executable models
   `CheckTs.checkSchema`, `CheckOp.checkOp` (schema side and document side), `SchemaDecls.schemaFile`,
-  `ResolverDecls.resolversFile`, `OpTypes.implTree`/`toTs`/`opDecls`, with kernel-checked witnesses for every side condition. What is still carried
-  by K/O only: that these models compute what the real code computes (K streams of C03/C04/C05 for the checkers,
+  `ResolverDecls.resolversFile`, `OpTypes.implTree`/`toTs`/`opDecls`, with kernel-checked witnesses of necessity for
+  `BuiltinsApart`, "at most one schema definition" (operation checker), `NoDupFragNames` (multiset statement) and the
+  "up to order" clauses, and PRE-REPAIR witnesses (`…_prerepair`, about `checkSchemaItems`, the function before fix
+  8cdbacf) for repeated type / directive names; there is no witness for `NoDupOpNames`, `KeepsExtOrder` or
+  `builtinTypeNamesDistinct`. The theorems KEEP `NoDupTypeNames` / `NoDupDirectiveNames` / "at most one schema
+  definition" / `BuiltinsApart` as hypotheses (not discharged from "the pipeline produced this document").
+  What is still carried by K/O only:
+  that these models compute what the real code computes (K streams of C03/C04/C05 for the checkers,
   C09/C10 for the schema declaration file, C01/C02 for the operation types — other properties' harnesses), and the
   consequence on the real CLI (verdict and per-alias denotation invariant under shuffling definitions inside and
   across files, and renaming files: O stream of harness/src/bin/c17.rs).
